@@ -37,7 +37,7 @@ class Grammar:
     actions: ctype -> kind (1 void apply, 2 void apply0, 3 bool apply, 4 bool apply0)
     errmsg: rule index -> custom error_message text"""
 
-    def __init__(self, rules, actions=None, errmsg=None, nonempty_slots=0, veto=False, throw=False, alphabet=None, note=""):
+    def __init__(self, rules, actions=None, errmsg=None, nonempty_slots=0, veto=False, throw=False, alphabet=None, note="", extra=None, maxlen=None):
         self.rules = rules
         self.actions = actions or {}
         self.errmsg = errmsg or {}
@@ -46,17 +46,21 @@ class Grammar:
         self.throw = throw
         self.alphabet = alphabet
         self.note = note
+        self.extra = extra or []  # additional explicit inputs (latin-1 strings)
+        self.maxlen = maxlen      # (quick, thorough) exhaustive input length, None = default
 
     def to_json(self):
         return {"rules": [r.to_json() for r in self.rules], "actions": self.actions,
                 "errmsg": {str(k): v for k, v in self.errmsg.items()}, "nonempty_slots": self.nonempty_slots,
-                "veto": self.veto, "throw": self.throw, "alphabet": self.alphabet, "note": self.note}
+                "veto": self.veto, "throw": self.throw, "alphabet": self.alphabet, "note": self.note,
+                "extra": self.extra, "maxlen": self.maxlen}
 
     @staticmethod
     def from_json(j):
         return Grammar([N.from_json(r) for r in j["rules"]], dict(j.get("actions", {})),
                        {int(k): v for k, v in j.get("errmsg", {}).items()}, j.get("nonempty_slots", 0),
-                       j.get("veto", False), j.get("throw", False), j.get("alphabet"), j.get("note", ""))
+                       j.get("veto", False), j.get("throw", False), j.get("alphabet"), j.get("note", ""),
+                       j.get("extra"), j.get("maxlen"))
 
     def nslots(self):
         m = -1
@@ -590,9 +594,12 @@ def emit_grammar(g, gi, cfgset_macro="VF_CFGS"):
     out.append("}")
     js = json.dumps(g.to_json(), separators=(",", ":"))
     alphabet = g.alphabet or grammar_alphabet(g)
-    out.append("static const bool registered = [] { vf::gram_entry e; e.name = \"g%d\"; e.json = R\"VFJ(%s)VFJ\"; e.pretty = R\"VFP(%s)VFP\"; e.build = &build; e.alphabet = std::string( \"%s\", %d ); e.nslots = %d; e.nonempty_mask = %du; e.scripted_veto = %s; e.scripted_throw = %s; %s( e, R0, act ); vf::grammars().push_back( e ); return true; }();"
+    extra_txt = "".join("e.extra.push_back( std::string( \"%s\", %d ) ); " % ("".join("\\x%02x" % ord(c) for c in x), len(x)) for x in g.extra)
+    if g.maxlen:
+        extra_txt += "e.maxlen_quick = %d; e.maxlen_thorough = %d; " % (g.maxlen[0], g.maxlen[1])
+    out.append("static const bool registered = [] { vf::gram_entry e; e.name = \"g%d\"; e.json = R\"VFJ(%s)VFJ\"; e.pretty = R\"VFP(%s)VFP\"; e.build = &build; e.alphabet = std::string( \"%s\", %d ); e.nslots = %d; e.nonempty_mask = %du; e.scripted_veto = %s; e.scripted_throw = %s; %s %s( e, R0, act ); vf::grammars().push_back( e ); return true; }();"
                % (gi, js, pretty(g), "".join("\\x%02x" % ord(c) for c in alphabet), len(alphabet), g.nslots(), g.nonempty_slots,
-                  "true" if g.veto else "false", "true" if g.throw else "false", cfgset_macro))
+                  "true" if g.veto else "false", "true" if g.throw else "false", extra_txt, cfgset_macro))
     out.append("}")
     return "\n".join(out)
 
@@ -711,7 +718,11 @@ class Gen:
         if o == "pad_opt":
             return N(o, k(2))
         if o in ("rep", "rep_max", "rep_min", "rep_opt"):
-            return N(o, k(r.choice([1, 1, 2])), n=r.randrange(0, 4))
+            kids = k(r.choice([1, 1, 2]))
+            n = r.randrange(0, 4)
+            if o == "rep_opt" and n == 0 and len(kids) == 1:
+                n = 1  # rep_opt< 0, R > with one rule is an ambiguous partial specialisation in PEGTL (does not compile)
+            return N(o, kids, n=n)
         if o == "rep_min_max":
             mn = r.randrange(0, 4)
             return N(o, k(r.choice([1, 1, 2])), min=mn, max=r.randrange(mn, 5))
